@@ -1,6 +1,7 @@
 package postgres
 
 import (
+	"bytes"
 	"context"
 	"fmt"
 
@@ -36,6 +37,10 @@ func (pdb *pgDb) Dump(ctx context.Context, key []byte) (*db.Dumper, error) {
 		if err != nil {
 			return nil, err
 		}
+		if !bytes.HasPrefix(kk, k) {
+			rs.Close()
+			return nil, db.NewErrNotFound(k)
+		}
 		pdb.it = rs
 		pdb.itBase = k
 		kk, err = pdb.DecodeKey(ctx, kk)
@@ -59,6 +64,12 @@ func (pdb *pgDb) dumpFunc(ctx context.Context) ([]byte, []byte) {
 	}
 	err := pdb.it.Scan(&kk, &vv)
 	if err != nil {
+		return nil, nil
+	}
+	if !bytes.HasPrefix(kk, pdb.itBase) {
+		pdb.it.Close()
+		pdb.it = nil
+		pdb.itBase = nil
 		return nil, nil
 	}
 	k, err := pdb.DecodeKey(ctx, kk)
